@@ -34,6 +34,23 @@ pub fn expand(line: &str, tab_cfg: &TabCfg) -> String {
     }
 }
 
+/// Expand tabs as spaces in the text of a line which may contain ANSI escape sequences. A tab
+/// inside an escape sequence is part of that sequence and is left alone.
+pub fn expand_raw(line: &str, tab_cfg: &TabCfg) -> String {
+    if !line.as_bytes().contains(&b'\x1b') {
+        return expand(line, tab_cfg);
+    }
+    crate::ansi::ansi_strings_iterator(line)
+        .map(|(s, is_ansi)| {
+            if is_ansi {
+                s.to_string()
+            } else {
+                expand(s, tab_cfg)
+            }
+        })
+        .collect()
+}
+
 /// Remove `prefix` chars from `line`, then call `tabs::expand()`.
 pub fn remove_prefix_and_expand(prefix: usize, line: &str, tab_cfg: &TabCfg) -> String {
     let line_bytes = line.as_bytes();
